@@ -11,7 +11,7 @@ CHECKS = {
     "C01": (
         EXH + " against a definitional reference model (combinations + order-isomorphism); histories re-using memoised pattern objects",
         "Every (pattern, permutation) pair below a length bound is enumerated and every entry point compared, as a list, with an independent oracle; above the bound Hypothesis plants occurrences, colours and re-uses memoised pattern objects across targets, including lazily consumed searches that overlap in time, searches aborted part-way by an injected asynchronous exception and patterns given in one-shot containers; thorough adds atheris campaigns with the oracle inside the target. Exploration is the right level: the property is universally quantified over an infinite domain; complete small worlds plus generated larger ones reach the off-by-one and memo faults the pruned backtracking search can have.",
-        "Trusted: pv/oracle.py. Bounded: exhaustive |p|<=4,|t|<=6 quick (|p|<=5,|t|<=7 thorough); generated up to |p|<=6,|t|<=12.",
+        "Trusted: pv/oracle.py. Bounded: exhaustive |p|<=4,|t|<=6 quick (|p|<=5,|t|<=8 thorough); generated up to |p|<=6,|t|<=12 and |p|<=4,|t|<=24.",
         "DESIGN.md 4/C01",
     ),
     "C02": (
@@ -58,7 +58,7 @@ CHECKS = {
     ),
     "C10": (
         EXH + "; oracle = point configurations + standardisation, definitional interval/run scanners, children/coveredby duality",
-        "Every permutation up to length 6 (7 thorough) with all argument values for insert/remove/shifts; all ordered pairs of length <=4 for composition and sums; generated triples and inflate component lists with None/empty components.",
+        "Every permutation up to length 6 (8 thorough) with all argument values for insert/remove/shifts; all ordered pairs of length <=4 for composition and sums; generated triples and inflate component lists with None/empty components.",
         "Trusted: oracle definitions. is_strongly_simple not asserted (docstring and code disagree, no independent definition).",
         "DESIGN.md 4/C10",
     ),
